@@ -495,6 +495,8 @@ def episode(ctx, t, prop, family, tools, memo, mm, rep):
         ctx.probe("multi-file")
     if getattr(w, "repeated_targets", False):
         ctx.probe("list-with-a-repeated-target")
+    if getattr(w, "two_lists", False):
+        ctx.probe("object-with-two-reference-lists")
     if getattr(w, "split_lists", False):
         ctx.probe("list-assigned-at-two-places-of-the-rule")
     if outcome == "error":
@@ -543,28 +545,29 @@ def episode(ctx, t, prop, family, tools, memo, mm, rep):
         if u.file not in closure:
             continue
         uo = locate(models[u.file], u.path())
-        lst = [r for r in u.refs if r.attr == "refs"]
-        exp = [expected_target_obj(models, r.target) for r in lst]
-        got = list(uo.refs)
-        bad = [x for x in got if type(x).__name__ in ("ObjCrossRef", "Postponed")]
-        if bad:
-            ctx.violate("C09", "result-independent-of-order", f"{family}/unresolved-left",
-                        f"{u.sid()}.refs holds {type(bad[0]).__name__}")
-        if sorted(map(id, got)) != sorted(map(id, exp)):
-            ctx.violate("C09", "result-independent-of-order", f"{family}/list-content",
-                        f"{u.sid()}.refs = {[getattr(x, 'name', x) for x in got]}, expected (any order) "
-                        f"{[x.name for x in exp]}")
-            # "the resolved list contains the targets": a list that lost or gained elements is not that list either
-            ctx.violate("C08", "content", f"{family}/{mode}",
-                        f"{u.sid()}.refs = {[getattr(x, 'name', x) for x in got]}, the references in the text are "
-                        f"{[x.name for x in exp]}")
-        elif [id(x) for x in got] != [id(x) for x in exp]:
-            ctx.violate("C08", "order", f"{family}/{mode}",
-                        f"{u.sid()}.refs = {[x.name for x in got]}, textual order is {[x.name for x in exp]}")
-            # the eager schedule gives the textual order, so this result depends on the schedule taken
-            ctx.violate("C09", "result-independent-of-order", f"{family}/list-order",
-                        f"{u.sid()}.refs = {[x.name for x in got]} under this schedule, {[x.name for x in exp]} under "
-                        f"the eager one")
+        for la in ("refs", "more"):
+            lst = [r for r in u.refs if r.attr == la]
+            exp = [expected_target_obj(models, r.target) for r in lst]
+            got = list(getattr(uo, la))
+            bad = [x for x in got if type(x).__name__ in ("ObjCrossRef", "Postponed")]
+            if bad:
+                ctx.violate("C09", "result-independent-of-order", f"{family}/unresolved-left",
+                            f"{u.sid()}.{la} holds {type(bad[0]).__name__}")
+            if sorted(map(id, got)) != sorted(map(id, exp)):
+                ctx.violate("C09", "result-independent-of-order", f"{family}/list-content",
+                            f"{u.sid()}.{la} = {[getattr(x, 'name', x) for x in got]}, expected (any order) "
+                            f"{[x.name for x in exp]}")
+                # "the resolved list contains the targets": a list that lost or gained elements is not that list either
+                ctx.violate("C08", "content", f"{family}/{mode}",
+                            f"{u.sid()}.{la} = {[getattr(x, 'name', x) for x in got]}, the references in the text are "
+                            f"{[x.name for x in exp]}")
+            elif [id(x) for x in got] != [id(x) for x in exp]:
+                ctx.violate("C08", "order", f"{family}/{mode}",
+                            f"{u.sid()}.{la} = {[x.name for x in got]}, textual order is {[x.name for x in exp]}")
+                # the eager schedule gives the textual order, so this result depends on the schedule taken
+                ctx.violate("C09", "result-independent-of-order", f"{family}/list-order",
+                            f"{u.sid()}.{la} = {[x.name for x in got]} under this schedule, {[x.name for x in exp]} under "
+                            f"the eager one")
         for attr in ("one", "opt", "alt"):
             rr = [r for r in u.refs if r.attr == attr]
             val = getattr(uo, attr)
